@@ -9,6 +9,13 @@
 //! (`to_marrow` then marrow's array conversion; the back end's arrays viewed and read with `from_marrow`), the
 //! record batch's schema converted back to marrow fields, and the field round trips marrow → back end → marrow.
 //! This is the validation of the hypotheses about marrow's conversions used in `SaModel/Props/C19.lean`.
+//!
+//! API coverage (notes/api_coverage.md): a third crossing creates the builder with `ArrayBuilder::new(schema)` from a
+//! `SerdeArrowSchema` obtained with `TryFrom<&[arrow Field]>` / `TryFrom<&[FieldRef]>` / `TryFrom<&[arrow2 Field]>`
+//! (`from` = `schema` / `schema_refs` / `schema2`); the record batch is also read as its parts
+//! (`from_arrow(batch.schema().fields(), batch.columns())`, what `from_record_batch` is documented to be) and the arrow
+//! arrays through a slice of REFERENCES (`A = &ArrayRef`: any `AsRef<dyn Array>` is accepted).  The `_impl` re-exports and
+//! `serde_arrow::marrow` are pinned at compile time (`_reexports`).
 use crate::dedump::Dump;
 use crate::dump::view_to_json;
 use crate::gen_backend::{decorate, grid_leaves, grid_position, sanitize};
@@ -36,7 +43,24 @@ fn crossings(r: &mut Rng) -> Vec<Value> {
     // two builder paths that cross the back ends: created from one family's fields, finished into another
     let froms = ["marrow", "arrow", "arrow2"];
     let tos = ["marrow", "arrow", "batch", "arrow2"];
-    (0..2).map(|_| json!({"from": *r.pick(&froms), "to": *r.pick(&tos), "how": *r.pick(&["extend", "push"])})).collect()
+    let mut out: Vec<Value> = (0..2).map(|_| json!({"from": *r.pick(&froms), "to": *r.pick(&tos), "how": *r.pick(&["extend", "push"])})).collect();
+    // API coverage: ArrayBuilder::new(SerdeArrowSchema) (choices from a stream of their own)
+    let mut x = Rng::new(r.0 ^ 0xA91_C07E);
+    out.push(json!({"from": *x.pick(&["schema", "schema_refs", "schema2"]), "to": *x.pick(&tos), "how": *x.pick(&["extend", "push"])}));
+    out
+}
+
+/// compile-time pins of the re-exports: with the features of this harness `_impl::arrow` is arrow 55, `_impl::arrow2` is
+/// arrow2 0.17 and `serde_arrow::marrow` is the marrow this harness links (a different choice does not type-check)
+#[allow(dead_code)]
+fn _reexports(
+    f: serde_arrow::_impl::arrow::datatypes::FieldRef,
+    a: serde_arrow::_impl::arrow::array::ArrayRef,
+    b: serde_arrow::_impl::arrow::array::RecordBatch,
+    f2: serde_arrow::_impl::arrow2::datatypes::Field,
+    m: serde_arrow::marrow::datatypes::Field,
+) -> (AFieldRef, AArray, arrow_array::RecordBatch, A2Field, Field) {
+    (f, a, b, f2, m)
 }
 
 pub fn gen(ctx: &Ctx) -> Vec<Value> {
@@ -200,17 +224,24 @@ struct Fields {
 /// `ArrayBuilder::from_<from>(fields)`, rows added with `extend` or `push`, `to_<to>()`
 fn builder_path(fs: &Fields, rows: &[Value], from: &str, to: &str, how: &str) -> (Value, Option<Built>) {
     let field_err = match from {
-        "arrow" => fs.a.as_ref().err().cloned(),
-        "arrow2" => fs.a2.as_ref().err().cloned(),
+        "arrow" | "schema" | "schema_refs" => fs.a.as_ref().err().cloned(),
+        "arrow2" | "schema2" => fs.a2.as_ref().err().cloned(),
         _ => None,
     };
     if let Some(e) = field_err {
         return (json!({ "field_err": e }), None);
     }
     run_keep(|| {
+        use serde_arrow::schema::SerdeArrowSchema;
         let mut b = match from {
             "marrow" => serde_arrow::ArrayBuilder::from_marrow(&fs.m)?,
             "arrow" => serde_arrow::ArrayBuilder::from_arrow(fs.a.as_ref().unwrap())?,
+            "schema" => {
+                let plain: Vec<AField> = fs.a.as_ref().unwrap().iter().map(|f| f.as_ref().clone()).collect();
+                serde_arrow::ArrayBuilder::new(SerdeArrowSchema::try_from(&plain[..])?)?
+            }
+            "schema_refs" => serde_arrow::ArrayBuilder::new(SerdeArrowSchema::try_from(&fs.a.as_ref().unwrap()[..])?)?,
+            "schema2" => serde_arrow::ArrayBuilder::new(SerdeArrowSchema::try_from(&fs.a2.as_ref().unwrap()[..])?)?,
             _ => serde_arrow::ArrayBuilder::from_arrow2(fs.a2.as_ref().unwrap())?,
         };
         if how == "push" {
@@ -388,6 +419,8 @@ pub fn exec(input: &Value) -> Value {
     if let (Some(arrays), Ok(afs)) = (&arr_a, &fs.a) {
         de.insert("arrow".into(), de_out(|| serde_arrow::from_arrow::<Dump, _>(afs, arrays)));
         de.insert("d_arrow".into(), de_out(|| Dump::deserialize(serde_arrow::Deserializer::from_arrow(afs, arrays)?)));
+        let refs: Vec<&AArray> = arrays.iter().collect();
+        de.insert("arrow_refs".into(), de_out(|| serde_arrow::from_arrow::<Dump, _>(afs, &refs)));
         // from_arrow = views ; from_marrow
         let r = conv(|| arrays.iter().map(|a| View::try_from(a.as_ref())).collect::<Result<Vec<View>, _>>());
         via.insert("de_arrow".into(), match r {
@@ -398,6 +431,8 @@ pub fn exec(input: &Value) -> Value {
     if let Some(b) = &batch {
         de.insert("batch".into(), de_out(|| serde_arrow::from_record_batch::<Dump>(b)));
         de.insert("d_batch".into(), de_out(|| Dump::deserialize(serde_arrow::Deserializer::from_record_batch(b)?)));
+        let schema = b.schema();
+        de.insert("batch_parts".into(), de_out(|| serde_arrow::from_arrow::<Dump, _>(schema.fields(), b.columns())));
         let r = conv(|| b.columns().iter().map(|a| View::try_from(a.as_ref())).collect::<Result<Vec<View>, _>>());
         via.insert("de_batch".into(), match r {
             Ok(views) => de_out(|| serde_arrow::from_marrow::<Dump>(&fs.m, &views)),
